@@ -35,4 +35,41 @@ PROPS = {
             {"name": "c03.accept-only-if", "pkg": BPV7, "test": "TestVerifC03AcceptOnlyIf", "shards_t": 8},
         ],
     },
+    "C02": {
+        "level": "exploration",
+        "technique": "rapid property tests + enumeration: rule-violating edits of valid encodings (CRCs recomputed) judged by an independent BPv7 rule validator; producer outputs (builder sequences, BuildFromMap, Fragment/Reassemble, node-generated bundles) validated and re-parsed",
+        "level_text": "accept => rules: every edit kind x variant is enumerated on several seeds, pairs/triples and item-level mutants are random; produced => rules and accepted: random builder call sequences, JSON argument maps, fragmentation outputs. The validator is an independent re-implementation of exactly the rules in the statement.",
+        "level_note": "trusts the harness' rule validator (about 200 lines) and CBOR reader; expiry is not judged within 5 s of the expiry instant (the code reads its own clock)",
+        "assumptions": ["endpoint validity = documented grammar (dtn:none, //node/demux with node over [A-Za-z0-9._-], demux without line break; ipn numbers >= 1); checked for the three primary-block endpoints and the previous-node block"],
+        "units": [
+            {"name": "c02.singles", "pkg": BPV7, "test": "TestVerifC02Singles", "shards_t": 8},
+            {"name": "c02.combos", "pkg": BPV7, "test": "TestVerifC02Combos", "shards_t": 8},
+            {"name": "c02.accepted-clean", "pkg": BPV7, "test": "TestVerifC02AcceptedClean", "shards_t": 16},
+            {"name": "c02.builder", "pkg": BPV7, "test": "TestVerifC02Builder", "shards_t": 8},
+            {"name": "c02.buildfrommap", "pkg": BPV7, "test": "TestVerifC02BuildFromMap", "shards_t": 8},
+            {"name": "c02.fragments", "pkg": BPV7, "test": "TestVerifC02Fragments", "shards_t": 8},
+        ],
+    },
+    "C09": {
+        "level": "exploration",
+        "technique": "rapid property test + exhaustive (payload, MTU) grid; validity predicate over the fragment list and byte-identical reassembly in all orders, judged with the independent CBOR reader",
+        "level_text": "Every (bundle, MTU) pair is judged by a validity predicate (size, identity fields, partition, block placement) evaluated on independently decoded bytes, and by byte-identical reassembly in all orders for up to 5 fragments. Small payloads x all MTUs are enumerated exhaustively for several block layouts.",
+        "level_note": "multi-entry map blocks are excluded as the statement says; payloads up to 70 KB; for a must-not-fragment bundle that fits both refusing and returning the bundle are accepted",
+        "assumptions": ["clock-less bundles are generated mostly with a replicated age block, otherwise Fragment legitimately fails"],
+        "units": [
+            {"name": "c09.random", "pkg": BPV7, "test": "TestVerifC09Random", "shards_t": 16},
+            {"name": "c09.grid", "pkg": BPV7, "test": "TestVerifC09Grid", "shards_t": 16, "shards_q": 4},
+        ],
+    },
+    "C10": {
+        "level": "exploration",
+        "technique": "rapid property test + exhaustive subsets/orders for small pools; independent interval-union coverage oracle",
+        "level_text": "Multisets of fragments from up to three fragmentations and second-level fragmentation are reassembled; success must coincide with an independently computed coverage of the payload and the result must equal the original. Small pools are enumerated over every subset and order.",
+        "level_note": "fragments come from the package's own Fragment (whose correctness is C09's subject); the store-side completeness test is exercised in pkg/storage",
+        "assumptions": [],
+        "units": [
+            {"name": "c10.random", "pkg": BPV7, "test": "TestVerifC10Random", "shards_t": 16},
+            {"name": "c10.small", "pkg": BPV7, "test": "TestVerifC10Small", "shards_t": 16, "shards_q": 4},
+        ],
+    },
 }
